@@ -38,6 +38,15 @@ def check_case(ctx, case):
         ctx.note("skipped-not-unique")
         return
     up, down = P.signature
+    # the verdict must not depend on which classes were asked before: ask the signature-free ancestors of
+    # the part class first (the order in which a user would naturally characterise a record)
+    for anc in P.__mro__[1:]:
+        if anc.__module__.startswith("moclo.kits.") and getattr(anc, "cutter", NotImplemented) is not NotImplemented \
+                and issubclass(anc, (boot.AbstractModule, boot.AbstractVector)):
+            try:
+                T.evaluate(anc, wd)
+            except Exception:  # noqa
+                pass
     g = T.evaluate(G, wd)
     p = T.evaluate(P, wd)
     exp = g[0] == "valid" and sigmatch(up, g[1]) and sigmatch(down, g[2])
@@ -147,7 +156,11 @@ def run(ctx):
         cls = rng.choice(subs)
         up, down = cls.signature
         mode = rng.choice([0, 0, 2, 3])
-        wd = make_word(rng, cls, overhang_for(rng, up, mode, pool), overhang_for(rng, down, 0, pool))
+        if rng.random() < 0.25:
+            # a member of the type with a third site of the cutter inside its target: no candidate accepts
+            wd = T.inner_site_instance(rng, cls, lower=rng.choice(["upper", "mixed"]))
+        else:
+            wd = make_word(rng, cls, overhang_for(rng, up, mode, pool), overhang_for(rng, down, 0, pool))
         if wd is None:
             continue
         check_characterize(ctx, {"base": asm.cls_name(base), "word": gen.rot(wd, rng.randrange(len(wd)))})
